@@ -114,14 +114,9 @@ func runC09(c *Ctx) {
 			cl := bigCall(v, "Sign")
 			return cl != nil && isTarget(cl.Call.Args[0])
 		}, isConstInt(0), token.GTR, true), G1Opt{})
-		c.GuardSuccess("G-pow", "CheckProofOfWork|target within the limit", f, "target.Cmp(powLimit) <= 0", condCmp(func(v ssa.Value) bool {
-			cl := bigCall(v, "Cmp")
-			return cl != nil && isTarget(cl.Call.Args[0]) && paramNamed(cl.Call.Args[1], "powLimit")
-		}, isConstInt(0), token.LEQ, true), G1Opt{})
-		c.GuardSuccess("G-pow", "CheckProofOfWork|hash at most the target", f, "HashToBig(parent hash).Cmp(target) <= 0", condCmp(func(v ssa.Value) bool {
-			cl := bigCall(v, "Cmp")
-			return cl != nil && isHashNum(cl.Call.Args[0]) && isTarget(cl.Call.Args[1])
-		}, isConstInt(0), token.LEQ, true), G1Opt{})
+		leq := func(c int) bool { return c <= 0 }
+		c.GuardSuccess("G-pow", "CheckProofOfWork|target within the limit", f, "target <= powLimit (big.Int.Cmp)", bigRelArm(isTarget, func(v ssa.Value) bool { return paramNamed(v, "powLimit") }, leq), G1Opt{})
+		c.GuardSuccess("G-pow", "CheckProofOfWork|hash at most the target", f, "HashToBig(parent hash) <= target (big.Int.Cmp)", bigRelArm(isHashNum, isTarget, leq), G1Opt{})
 	}
 	if f := c.fn(bc, "BlockChain", "CheckBlockSanity"); f != nil {
 		pw := callPred(R{bc, "", "CheckProofOfWork"})
@@ -155,10 +150,7 @@ func runC09(c *Ctx) {
 			cut := ssau.NewCut()
 			n := 0
 			for _, i := range ssau.Ifs(f) {
-				if m, arm := condCmp(func(v ssa.Value) bool {
-					cl := bigCall(v, "Cmp")
-					return cl != nil && sameBig(cl.Call.Args[0], nt) && isLimit(cl.Call.Args[1])
-				}, isConstInt(0), token.LEQ, true)(i); m {
+				if m, arm := bigRelArm(func(v ssa.Value) bool { return sameBig(v, nt) }, isLimit, func(c int) bool { return c <= 0 })(i); m {
 					cut.AddEdge(i.Block(), ssau.Arm(i, arm))
 					n++
 				}
@@ -343,4 +335,65 @@ func genesisCut(f *ssa.Function) *ssau.Cut {
 		}
 	}
 	return cut
+}
+
+// bigRelArm matches `x.Cmp(y) op k` where (x,y) are (A,B) or (B,A) and returns the arm on which the relation rel
+// (a predicate on sign(A-B) in {-1,0,1}) is guaranteed. Equivalent spellings (swapped receiver, mirrored operator,
+// comparison with -1/1) all match.
+func bigRelArm(isA, isB func(ssa.Value) bool, rel func(c int) bool) IfArm {
+	return func(i *ssa.If) (bool, bool) {
+		cond, neg := ssau.StripNot(i.Cond)
+		b, ok := cond.(*ssa.BinOp)
+		if !ok {
+			return false, false
+		}
+		var call *ssa.Call
+		var k int64
+		op := b.Op
+		if cl, ok := ssau.Unwrap(b.X).(*ssa.Call); ok {
+			if kv, ok := constVal64(b.Y); ok {
+				call, k = cl, kv
+			}
+		} else if cl, ok := ssau.Unwrap(b.Y).(*ssa.Call); ok {
+			if kv, ok := constVal64(b.X); ok {
+				call, k = cl, kv
+				op = mirror(op)
+			}
+		}
+		if call == nil {
+			return false, false
+		}
+		f := call.Call.StaticCallee()
+		if f == nil || f.String() != "(*math/big.Int).Cmp" {
+			return false, false
+		}
+		x, y := call.Call.Args[0], call.Call.Args[1]
+		flip := 1
+		switch {
+		case isA(x) && isB(y):
+		case isB(x) && isA(y):
+			flip = -1
+		default:
+			return false, false
+		}
+		for _, arm := range []bool{true, false} {
+			all, any := true, false
+			for _, c := range []int{-1, 0, 1} {
+				v, okc := cmp(op, int64(c), k)
+				if !okc {
+					return false, false
+				}
+				if (v != neg) == arm {
+					any = true
+					if !rel(c * flip) {
+						all = false
+					}
+				}
+			}
+			if any && all {
+				return true, arm
+			}
+		}
+		return false, false
+	}
 }
